@@ -19,6 +19,8 @@ from harness.common import Case, f
 from symx.baton import Baton, Deadlock, ThreadKill, make_shims
 from symx.core import PathAbort, Sym, data_decisions, is_sym, lift, schedule_of
 from symx.npx import NPX, patched, sym_float
+from symx.core import reraise_if_harness  # noqa: E402
+from harness.rlintro import agent_threads, qlen, rl_queues, scalar_state  # noqa: E402
 
 LEVEL = "model_checking"
 FUNCTIONS = [
@@ -137,7 +139,7 @@ def run_protocol(sessions, agent_kind, losses, choose, on_state=None, publish=No
                         sched.update(t, np.array([[0.5]]), [losses[t]], None)
                         t += 1
                 # session ended
-                result["leftover"].append((len(sched._in_queue.items), len(sched._out_queue.items)))
+                result["leftover"].append(tuple(qlen(q) for q in rl_queues(sched)))
                 result["alive_after"].append(list(baton.alive()))
         except Deadlock as e:
             result["deadlock"] = str(e)
@@ -190,9 +192,9 @@ def _state_key(ctx, holder, extra=None):
         k = (
             tuple((n, b.threads[n]["status"], b.threads[n]["pending"]) for n in b.order),
             tuple((n, tuple(b.obs[n])) for n in b.order),
-            tuple(_key(x) for x in sched._in_queue.items), tuple(_key(x) for x in sched._out_queue.items),
+            tuple(tuple(_key(x) for x in q.items) for q in rl_queues(sched)),
             sched.__dict__.get("_stopped_value"), tuple((a, _key(r)) for a, r in agent.learned), agent.n_policy,
-            _key(sched._best_loss), _key(env._curr_best_loss), tuple(holder.get("chosen", [])),
+            scalar_state(sched, env), tuple(holder.get("chosen", [])),
             data_decisions(ctx),  # data decisions so far (the path condition)
             extra() if extra else None,
         )
@@ -339,6 +341,7 @@ def free_run(sessions, agent_kind, Ls):
     sched = rls.RLScheduler(samplers, agent, env, random_state=0)
     res = {"chosen": [], "leftover": [], "alive_after": [], "deadlock": None, "errors": [], "trace": []}
     t = 0
+    threads_before = list(threading.enumerate())
     done = threading.Event()
 
     def drive():
@@ -352,10 +355,10 @@ def free_run(sessions, agent_kind, Ls):
                         sched.update(t, np.array([[0.5]]), [Ls[t]], None)
                         t += 1
                 time.sleep(0.01)
-                res["leftover"].append((sched._in_queue.qsize(), sched._out_queue.qsize()))
-                th = sched._agent_thread
-                res["alive_after"].append(["agent"] if th is not None and th.is_alive() else [])
+                res["leftover"].append(tuple(qlen(q) for q in rl_queues(sched)))
+                res["alive_after"].append(["agent"] if agent_threads(threads_before) else [])
         except Exception as e:  # noqa: BLE001
+            reraise_if_harness(e)
             res["errors"].append(f"{type(e).__name__}: {e}")
         done.set()
 
@@ -452,7 +455,7 @@ def case_via_calibrator(nb, policy):
         ctx.prove(z3.BoolVal(deadlock is None), "no_deadlock", str(deadlock))
         if deadlock is not None:
             return
-        ctx.prove(z3.BoolVal((len(sched._in_queue.items), len(sched._out_queue.items)) == (0, 0) and not baton.alive()), "no_message_left", "queues empty and agent thread ended after calibrate()")
+        ctx.prove(z3.BoolVal(tuple(qlen(q) for q in rl_queues(sched)) == (0, 0) and not baton.alive()), "no_message_left", "queues empty and agent thread ended after calibrate()")
         ctx.prove(z3.BoolVal([k for _, k in rec] == list(range(len(rec))) and len({s for s, _ in rec}) == 1), "schedule_independent", f"agent draws come from ONE stream, consecutively: {rec[:4]}")
         ctx.prove(z3.BoolVal(all("agent_ctor_seed" not in s for s, _ in rec)), "schedule_independent", f"the agent drew from the stream it was CONSTRUCTED with, not the one seeded by the calibration: {rec[:2]}")
         ctx.sample({"case": name, "agent_draws": rec[:3], "labels": chosen})
@@ -499,6 +502,7 @@ def replay_via_calibrator(nb):
     try:
         a, b = run(11, True), run(12, True)
     except Exception as e:  # noqa: BLE001
+        reraise_if_harness(e)
         return True, f"calibration raised {type(e).__name__}: {e}"
     return a[:1] != b[:1], f"first generator state seen by the agent with agent/scheduler constructor seeds 11/111: {str(a[:1])[:40]}, with 12/112: {str(b[:1])[:40]} (same calibrator seed; must be equal)"
 
